@@ -182,7 +182,7 @@ def make_env(kind: str, templates: dict[str, str], counter: list[int], root: str
 
         class SnippetsLoader(base):  # type: ignore[misc, valid-type]
             def get_source(self, env, template_name, *, context=None, **kwargs):  # noqa: ANN001
-                if kwargs.get("tag") in ("include", "render"):
+                if kwargs.get("tag") in ("include", "render") or kwargs.get("variant") == "alt":
                     template_name = "snippets__/" + template_name
                 return super().get_source(env, template_name, context=context, **kwargs)
 
@@ -191,23 +191,69 @@ def make_env(kind: str, templates: dict[str, str], counter: list[int], root: str
         # ... and a subclass that customises both entry points the same way, each calling super()
         class SnippetsLoader2(FileSystemLoader):
             def get_source(self, env, template_name, *, context=None, **kwargs):  # noqa: ANN001
-                if kwargs.get("tag") in ("include", "render"):
+                if kwargs.get("tag") in ("include", "render") or kwargs.get("variant") == "alt":
                     template_name = "snippets__/" + template_name
                 return super().get_source(env, template_name, context=context, **kwargs)
 
             async def get_source_async(self, env, template_name, *, context=None, **kwargs):  # noqa: ANN001
-                if kwargs.get("tag") in ("include", "render"):
+                if kwargs.get("tag") in ("include", "render") or kwargs.get("variant") == "alt":
                     template_name = "snippets__/" + template_name
                 return await super().get_source_async(env, template_name, context=context, **kwargs)
 
         loader = SnippetsLoader2(root)
+    elif kind in ("choice-ctx-dict", "caching-choice-ctx-dict", "choice-fs-sync-override"):
+        # load-context-aware loaders (docs/loading_templates.md, "Load context") that implement
+        # get_source() ONLY, used as a delegate of a choice loader: the tag name and the keyword
+        # arguments of get_template() must reach them on the async path too
+        class CtxDictLoader(DictLoader):
+            def get_source(self, env, template_name, *, context=None, **kwargs):  # noqa: ANN001
+                if kwargs.get("tag") in ("include", "render", "extends") or kwargs.get("variant") == "alt":
+                    alt = "snippets__/" + template_name
+                    if alt in self.templates:
+                        template_name = alt
+                return super().get_source(env, template_name, context=context, **kwargs)
+
+        class SnippetsLoader3(FileSystemLoader):
+            def get_source(self, env, template_name, *, context=None, **kwargs):  # noqa: ANN001
+                if kwargs.get("tag") in ("include", "render", "extends") or kwargs.get("variant") == "alt":
+                    template_name = "snippets__/" + template_name
+                return super().get_source(env, template_name, context=context, **kwargs)
+
+        both = {**templates, **{"snippets__/" + n: "S!" + t for n, t in templates.items()}}
+        if kind == "choice-ctx-dict":
+            loader = ChoiceLoader([DictLoader({}), CtxDictLoader(both)])
+        elif kind == "caching-choice-ctx-dict":
+            from liquid2 import CachingChoiceLoader
+
+            loader = CachingChoiceLoader([DictLoader({}), CtxDictLoader(both)])
+        else:
+            loader = ChoiceLoader([DictLoader({}), SnippetsLoader3(root)])
     else:
         raise ValueError(kind)
     del liquid2
-    return Environment(loader=loader, **(env_kwargs or {}))
+    kw = dict(env_kwargs or {})
+    limits = kw.pop("_limits", None)
+    if limits:
+        # resource limits are class attributes of the environment
+        class LimitedEnv(Environment):
+            pass
+
+        for k, v in limits.items():
+            setattr(LimitedEnv, k, v)
+        return LimitedEnv(loader=loader, **kw)
+    return Environment(loader=loader, **kw)
 
 
-VARIANTS = ["default", "strict", "autoescape", "falsy-strict", "autoescape+strict"]
+VARIANTS = ["default", "strict", "autoescape", "falsy-strict", "autoescape+strict", "limits-tight", "limits-mid"]
+
+# Small resource limits: both APIs must refuse the same programs at the same place.  (A
+# context copied once too often, or a carry lost, on ONE path shows as an error on that path
+# only — with the default limits that needs 30 nested contexts or 31 items.)
+LIMITS = {
+    "limits-tight": {"context_depth_limit": 4},
+    "limits-mid": {"context_depth_limit": 8, "loop_iteration_limit": 60, "local_namespace_limit": 1500,
+                   "output_stream_limit": 400},
+}
 
 
 def env_variant(v: str) -> dict[str, Any]:
@@ -215,6 +261,8 @@ def env_variant(v: str) -> dict[str, Any]:
     from liquid2 import StrictUndefined
 
     kw: dict[str, Any] = {}
+    if v in LIMITS:
+        kw["_limits"] = LIMITS[v]
     if "autoescape" in v:
         kw["auto_escape"] = True
     if v.endswith("falsy-strict"):
@@ -224,8 +272,13 @@ def env_variant(v: str) -> dict[str, Any]:
     return kw
 
 
-DICT_KINDS = ["dict", "gated", "caching", "caching-ns", "gated-caching", "gated-uptodate", "gated-stale", "gated-stale-slow"]
-FS_KINDS = ["fs", "caching-fs", "choice", "fs-sync-override", "caching-fs-sync-override", "fs-both-override"]
+DICT_KINDS = ["dict", "gated", "caching", "caching-ns", "gated-caching", "gated-uptodate", "gated-stale", "gated-stale-slow",
+              "choice-ctx-dict", "caching-choice-ctx-dict"]
+FS_KINDS = ["fs", "caching-fs", "choice", "fs-sync-override", "caching-fs-sync-override", "fs-both-override",
+            "choice-fs-sync-override"]
+# loaders that look at the keyword arguments of get_template()
+KWARG_KINDS = {"choice-ctx-dict", "caching-choice-ctx-dict", "choice-fs-sync-override", "fs-sync-override",
+               "caching-fs-sync-override", "fs-both-override"}
 
 
 def outcome(fn) -> tuple:  # noqa: ANN001
@@ -333,6 +386,15 @@ FIXTURES: list[tuple[str, dict[str, str], dict[str, Any]]] = [
      {"xs": {"items": [{"v": 1}, {"v": 2}]}}),
     ("{% macro m x %}{% if x > 1 %}{% break %}{% endif %}{{ x }}{% endmacro %}{% for i in xs.items %}{% call m i.v %}{% endfor %}",
      {}, {"xs": {"items": [{"v": 1}, {"v": 2}]}}),
+    # more items than the (small) context depth limit of the limits-* configurations, on every
+    # tag that makes a context per item or per call
+    ("{% render 'row' for rows %}|{% render 'row' for rows as row, k: 1 %}|{% include 'row' for rows %}|"
+     "{% for r in rows %}{% render 'row', row: r %}{% include 'row' with r as row %}{% endfor %}|"
+     "{% macro m x %}({{ x }}){% endmacro %}{% for r in rows %}{% call m r %}{% endfor %}|"
+     "{% for r in rows %}{% with q: r %}{{ q }}{% endwith %}{% endfor %}",
+     {"row": "<{{ row }}{% for i in (1..2) %}{{ i }}{% endfor %}>"}, {"rows": list(range(1, 12))}),
+    ("{% extends 'lay2' %}{% block b %}{% for r in rows %}{% render 'cell' for rows as c %}{% endfor %}{% endblock %}",
+     {"lay2": "[{% block b %}{% endblock %}]", "cell": "{{ c }}"}, {"rows": list(range(1, 7))}),
     ("{% capture c %}{{ a.b }}{% endcapture %}{{ c }}{% assign z = a.b | append: a.c %}{{ z }}{% with q: a.c %}{{ q }}{% endwith %}"
      "{% cycle a.b, a.c %}{% cycle a.b, a.c %}{{ 'x${a.b}y' }}{% for i in (a.lo..a.hi) %}{{ i }}{% endfor %}",
      {}, {"a": {"b": "B", "c": "C", "lo": 1, "hi": 3}}),
@@ -438,6 +500,15 @@ class Work:
             if s2 != a2:
                 ctx.violation(f"get_template-2nd:{_diffkind(s2, a2)}:{kind}", f"sync={_short(s2)} async={_short(a2)}",
                               {"op": "get_template", "name": name, "templates": templates, "data": data, "kind": kind})
+            if kind in KWARG_KINDS:
+                # keyword arguments of get_template() are load context for the loader
+                s3 = outcome(lambda: desc(env_s.get_template(name, globals=g, variant="alt")))
+                a3 = run_async(kind, lambda: _desc_async(env_a, name, g, desc, variant="alt"))
+                ctx.ev(2)
+                ctx.count("get_template_pairs:load-context-kwargs")
+                if s3 != a3:
+                    ctx.violation(f"get_template-kwargs:{_diffkind(s3, a3)}:{kind}", f"sync={_short(s3)} async={_short(a3)}",
+                                  {"op": "get_template", "name": name, "templates": templates, "data": data, "kind": kind})
             if s[0] != "ok":
                 continue
 
@@ -504,8 +575,8 @@ class Work:
                 return
 
 
-async def _desc_async(env, name, g, desc):  # noqa: ANN001
-    t = await env.get_template_async(name, globals=g)
+async def _desc_async(env, name, g, desc, **kwargs):  # noqa: ANN001
+    t = await env.get_template_async(name, globals=g, **kwargs)
     return desc(t)
 
 
@@ -628,7 +699,8 @@ def shards(tier: str, seed: int) -> list[dict[str, Any]]:
 def floors(tier: str) -> dict[str, int]:
     k = 1 if tier == "quick" else 15
     return {"sync_async_pairs": 1000 * k, "schedules_explored": 2000 * k, "schedule_sets_exhaustive": 50 * k,
-            "get_template_pairs": 200 * k, "analyze_pairs": 100 * k, "set:loader_kinds": 11, "error_pairs": 50 * k,
+            "get_template_pairs": 200 * k, "get_template_pairs:load-context-kwargs": 40 * k, "analyze_pairs": 100 * k, "set:loader_kinds": 14,
+            "sync_async_pairs:limits-tight": 60 * k, "sync_async_pairs:limits-mid": 60 * k, "error_pairs": 50 * k,
             "load_render_schedules": 300 * k}
 
 
